@@ -44,7 +44,14 @@ Inductive fobs :=
 Inductive c18case :=
 | CFault (f : fobs) (health : N)
 | CSeq (fs : list fobs) (valid : list N) (health : N)
-| CTls (ans : list N) (e : endst) (alive : bool) (probe : list N)
+  (* [health]/[hans]: status and raw bytes of GET /health over a complete TLS
+     handshake on a fresh connection, after the fault *)
+| CTls (ans : list N) (e : endst) (alive : bool) (probe : list N) (health : N) (hans : list N)
+  (* [peers] clients began a TLS handshake and stall, still connected, while
+     the listener is probed: plain-bytes liveness ([alive], [probe]) and the
+     full-handshake health request twice ([h1] with its bytes [hans], [h2]);
+     [h3] the same after the peers have gone *)
+| CTlsStall (peers : N) (alive : bool) (probe : list N) (h1 h2 h3 : N) (hans : list N)
   (* accept(2) made to fail with EMFILE while a connection waited in the
      listen queue: [filled] the descriptor table was really full, [logged] the
      acceptor's "accept error" warnings during the episode, [ans] what the
@@ -156,13 +163,42 @@ Definition judge (c : c18case) : N :=
                 (worst (if forallb (N.eqb 200) valid then V_AGREE else V_VIOLATION)
                        (judge_health (mode_of f0) health))
       end
-  | CTls ans e alive probe =>
-      (* the TLS acceptor is still accepting and negotiating, and whatever it
-         wrote before a handshake completed is TLS records *)
+  | CTls ans e alive probe health hans =>
+      (* the TLS acceptor is still accepting and negotiating, whatever it
+         wrote before a handshake completed is TLS records, and a client that
+         completes a handshake on a fresh connection is answered 200 *)
       if alive
          && (is_nil ans || valid_tls_answer ans || is_gone e)
          && (is_nil probe || valid_tls_answer probe)
+         && (health =? 200) && (health_expected Detached =? 200)
+         && match parse_answer false false hans with
+            | AComplete sts => list_eqb N.eqb sts [200]
+            | _ => false
+            end
       then V_AGREE else V_VIOLATION
+  | CTlsStall peers alive probe h1 h2 h3 hans =>
+      (* the property: peers that stall in the middle of a handshake do not
+         take the listener down for anybody else *)
+      let spec := alive && (is_nil probe || valid_tls_answer probe)
+                  && (h1 =? 200) && (h2 =? 200) && (h3 =? 200)
+                  && match parse_answer false false hans with
+                     | AComplete sts => list_eqb N.eqb sts [200]
+                     | _ => false
+                     end in
+      (* the model: [peers] sockets accepted whose negotiations stay pending,
+         then a fresh connection whose negotiation completes: it is served
+         (ConnProofs.fresh_connection_unaffected) and the others still pend *)
+      let n := N.to_nat (N.min peers 64) in
+      let evs := map (fun k => Loop (AcceptResult (Ok (N.of_nat (S k))))) (seq 0 n)
+                 ++ open_and_send true 0 [] in
+      let s := srv_run areq (fun _ => ([health_areq], TIncomplete [])) (respond Detached)
+                       evs (srv_init true) in
+      let model :=
+        match s_loop s, lookup 0 (s_conns s) with
+        | Accepting, Some (Open _ [st]) => (st =? 200) && (length (s_pending s) =? n)%nat
+        | _, _ => false
+        end in
+      if negb spec then V_VIOLATION else if model then V_AGREE else V_DIVERGE
   | CAccept tls filled logged ans served health =>
       if negb filled then V_AGREE          (* the episode could not be set up: nothing observed *)
       else
